@@ -1,6 +1,7 @@
 import GrinVerif.Lemmas.PmmrArith
 import GrinVerif.Lemmas.PmmrSound
 import GrinVerif.Lemmas.PmmrHandle
+import GrinVerif.Lemmas.PmmrValidate
 import GrinVerif.Spec.Mmr
 /-! # C07 — MMR positions, roots and Merkle proofs follow the MMR definition
 
@@ -1238,5 +1239,58 @@ example :
   decide
 
 end handle
+
+/-! ## 7. `PMMR::validate` on ANY hash file (not only the one `push` built) -/
+
+section validate
+variable {α H : Type}
+
+/-- **`validate` accepts a hash file exactly when every inner node holds the hash of its two
+children under its own position** -/
+theorem validate_accepts_iff_node_law [DecidableEq H] (hf : HashFn α H) (hashes : List H) :
+    validate hf hashes = true ↔ ∀ n, n < hashes.length → NodeLawAt hf hashes n :=
+  validate_iff hf hashes
+
+/-- **a validated hash file is determined by its leaf hashes**: if it has the length of the MMR of
+`xs` and holds at every leaf position the leaf hash of the corresponding element, it IS the hash
+file of the defining construction (hence same peaks, same root, same proofs) -/
+theorem validate_pins_the_mmr [DecidableEq H] (hf : HashFn α H) (xs : List α) (hb : xs.length ≤ 2^65)
+    (hs : List H) (hlen : hs.length = mmr xs.length) (hv : validate hf hs = true)
+    (hleaf : ∀ n, height n = 0 → hs[n]? = (Spec.Mmr.hashes hf xs)[n]?) :
+    hs = Spec.Mmr.hashes hf xs := by
+  obtain ⟨_, hl, _, _, _, _, hvs⟩ := push_root hf xs hb
+  exact validate_unique hf hs _ (by rw [hlen, hl]) hv hvs hleaf
+
+/-- **`validate` reports every replaced inner node**: in a hash file that validates, putting any
+other hash at an inner position makes `validate` fail -/
+theorem validate_detects_replaced_inner_node [DecidableEq H] (hf : HashFn α H) (hs : List H)
+    (hv : validate hf hs = true) (n : Nat) (hn : n < hs.length) (hpos : 0 < height n)
+    (h' : H) (hne : hs[n]? ≠ some h') : validate hf (hs.set n h') = false := by
+  cases hc : validate hf (hs.set n h') with
+  | false => rfl
+  | true =>
+    exfalso
+    rw [validate_iff] at hv hc
+    have hn0 : n ≠ 0 := by intro h0; rw [h0, height_zero] at hpos; exact Nat.lt_irrefl _ hpos
+    have hp2 : 0 < 2 ^ height n := Nat.pow_pos (by omega)
+    have hla : n - 2 ^ height n < hs.length := by omega
+    have hra : n - 1 < hs.length := by omega
+    have e0 : hs[n]? = some hs[n] := List.getElem?_eq_getElem hn
+    have el : hs[n - 2 ^ height n]? = some hs[n - 2 ^ height n] := List.getElem?_eq_getElem hla
+    have er : hs[n - 1]? = some hs[n - 1] := List.getElem?_eq_getElem hra
+    have h1 := hv n hn hpos _ _ _ e0 el er
+    have h2 := hc n (by rw [List.length_set]; exact hn) hpos h' hs[n - 2 ^ height n] hs[n - 1]
+      (by rw [List.getElem?_set_self hn])
+      (by rw [List.getElem?_set_ne (by omega)]; exact el)
+      (by rw [List.getElem?_set_ne (by omega)]; exact er)
+    exact hne (by rw [e0, ← h1, h2])
+
+/-- non-vacuity: the 3-node MMR over two elements in the free hash algebra validates; with another
+hash at its root it does not -/
+example : validate (termHF Nat) (Spec.Mmr.hashes (termHF Nat) [10, 11]) = true ∧
+    validate (termHF Nat) ((Spec.Mmr.hashes (termHF Nat) [10, 11]).set 2 (HTerm.leaf 0 0)) = false := by
+  decide +kernel
+
+end validate
 
 end GV.Props.C07
